@@ -6,6 +6,7 @@
 From CG3 Require Import Lib.PyZ Lib.PySlice Model.View Spec.ViewSpec Model.Serial.
 From CG3 Require Model.IndelMap Spec.IndelMapSpec.
 From CG3 Require Lib.Rose Model.Tree Proofs.NewickMoreProofs.
+From CG3 Require Model.FeatureMap Model.AnnotDb Spec.AnnotDbSpec Proofs.AnnotDbProofs.
 
 (** strand as [parent_coordinates()] reports it; an empty sequence has no
     residue on either strand, so the strand of an empty view is not observed
@@ -77,7 +78,15 @@ Inductive observation :=
 | ObsTree (t : Rose.tree)
 | ObsTable (o : option (list Z) * dict * list (list Z * list json))
 | ObsDarr (a : darr)
-| ObsNC (n : notcompleted).
+| ObsNC (n : notcompleted)
+| ObsDmat (m : dmat)
+| ObsProfile (c : profile_class) (a : darr)          (* the class of a profile array is observed: it decides the methods on offer *)
+| ObsFmap (m : FeatureMap.fmap)
+(* an annotation db is observed through its records, table by table in insertion order (what
+   get_features_matching / get_records_matching list) *)
+| ObsDb (rows : list AnnotDb.row)
+| ObsSeqDb (o : (list Z * Z * (Z * Z * Z) * kind) * option (list Z) * dict) (rows : list AnnotDb.row)
+| ObsMolType (label : list Z).
 
 Definition observe (x : obj) : observation :=
   match x with
@@ -90,6 +99,12 @@ Definition observe (x : obj) : observation :=
   | OTable t => ObsTable (observe_table t)
   | ODarr a => ObsDarr a
   | ONotCompleted n => ObsNC n
+  | ODmat m => ObsDmat m
+  | OProfile c a => ObsProfile c a
+  | OFmap m => ObsFmap m
+  | ODb tables rows => ObsDb (AnnotDbSpec.records_in_tables tables rows)
+  | OSeqDb s tables rows => ObsSeqDb (observe_seq s) (AnnotDbSpec.records_in_tables tables rows)
+  | OMolType l => ObsMolType l
   end.
 
 (** the objects the round-trip theorem covers: well-formed views that fit their parent,
@@ -119,6 +134,27 @@ Definition darr_okb (a : darr) : bool := check_shape (d_names a) (d_array a) 0.
 Definition nc_okb (n : notcompleted) : bool :=
   (zlen (nc_args n) =? 3) && forallb (fun kv => zeqb (fst kv) k_source) (nc_kwargs n).
 
+(** a span as [Span.__init__] leaves it: start <= end *)
+Definition span_okb (sp : FeatureMap.fspan) : bool :=
+  match sp with FeatureMap.FS s e _ => s <=? e | FeatureMap.FL _ => true end.
+
+(** the two tables of the model (0: the class' own, 1: user); every record is filed in one of them *)
+Definition db_ok (tables : list Z) (rows : list AnnotDb.row) : Prop :=
+  tables = [0; 1] /\ AnnotDbProofs.tables_ok [0; 1] rows.
+
+(** distance matrices as the library makes them: strictly sorted names, a square array, 0.0 on the diagonal *)
+Fixpoint strictly_sorted (l : list (list Z)) : bool :=
+  match l with
+  | a :: ((b :: _) as r) => str_ltb a b && strictly_sorted r
+  | _ => true
+  end.
+
+Definition dmat_okb (m : dmat) : bool :=
+  strictly_sorted (dm_names m) && (2 <=? zlen (dm_names m)) && (zlen (dm_rows m) =? zlen (dm_names m))
+  && forallb (fun r => zlen r =? zlen (dm_names m)) (dm_rows m)
+  && forallb (fun ir => match nth_error (snd ir) (fst ir) with Some (JFloat f) => zeqb f float_zero | _ => false end)
+             (combine (seq 0 (length (dm_rows m))) (dm_rows m)).
+
 Definition obj_ok (x : obj) : Prop :=
   match x with
   | OView v p _ => WF v /\ Fits v p
@@ -130,4 +166,10 @@ Definition obj_ok (x : obj) : Prop :=
   | OTable t => table_okb t = true
   | ODarr a => darr_okb a = true
   | ONotCompleted n => nc_okb n = true
+  | ODmat _ => False                  (* see [dmat_roundtrip_small] / [stmt_dmat_roundtrip]: no general theorem *)
+  | OProfile _ _ => False             (* refuted: [profile_class_refuted] *)
+  | OFmap m => forallb span_okb (FeatureMap.fspans m) = true
+  | ODb tables rows => db_ok tables rows
+  | OSeqDb s tables rows => seq_ok s /\ db_ok tables rows /\ rows <> []
+  | OMolType l => mem_str l moltype_labels = true
   end.
